@@ -217,5 +217,35 @@ func (prop) Sweep(tier string) []kernel.Scenario {
 			}
 		}
 	}
+	// wire tier: every byte offset of status line, headers and body × close/stall × framing × reuse
+	for framing := 0; framing < 3; framing++ {
+		for _, reuse := range []bool{false, true} {
+			w := wireScn{Payload: "value", Framing: framing, BodyLen: 40, Status: 200, CutAt: -1, Fragment: 7, Timeout: 300500, Reuse: reuse, Second: true}
+			n := len(w.response())
+			step := 1
+			if quick {
+				step = 23
+			}
+			for off := 0; off <= n; off += step {
+				for action := 1; action <= 2; action++ {
+					for reader := 0; reader < 3; reader++ {
+						if quick && reader == 2 {
+							continue
+						}
+						v := w
+						v.CutAt, v.Action, v.Reader, v.ReaderK = off, action, reader, 10
+						b, _ := json.Marshal(v)
+						out = append(out, kernel.Scenario{Name: "wire", Params: b})
+					}
+				}
+			}
+			for reader := 0; reader < 3; reader++ {
+				v := w
+				v.Reader, v.ReaderK = reader, 10
+				b, _ := json.Marshal(v)
+				out = append(out, kernel.Scenario{Name: "wire", Params: b})
+			}
+		}
+	}
 	return out
 }
